@@ -5,7 +5,7 @@ History explorer over a directory (driver E5, explicit-state search with de-dupl
   * a STATE is what earlier runs left in the output directory: relative path -> (content, age rank);
   * a TRANSITION is "delete a subset of the files, then run a freshly built pipeline
     ToCSV - MakeFilename - Write - RenderLaTeX - Write - LaTeXToPDF - PDFToPNG over data in {A, B} per
-    plot and a template in {T1, T2}", for every answer the stub converter processes can give to poll();
+    plot and a template in {T1, T1 plus a final newline}", for every answer the stub converter processes can give to poll();
   * pdflatex / pdftoppm are a stub ``subprocess`` (pdf := PDF[tex|csv named in it], png := PNG[pdf]) that
     records its invocations; file ages are sentinel mtimes owned by the explorer;
   * every executed transition is judged against a boring model of the property statement
@@ -41,7 +41,7 @@ LEVEL = "model_checking"
 DESIGN_REF = "DESIGN.md section 5, C19"
 RULE = ("explicit-state search: a state is the canonical content of the output directory (path, content, "
         "age rank within one plot's files); from every state reached within the run bound every transition "
-        "(subset of files deleted x data of every plot in {A,B} x template in {T1,T2} x every answer "
+        "(subset of files deleted x data of every plot in {A,B} x template in {T1, T1 plus a final newline} x every answer "
         "sequence of the stub converters' poll()) is executed once on a freshly built real pipeline and "
         "judged; a transition is non-trivial when it is a re-run over a non-empty directory left by earlier "
         "runs; for the naming part a case is non-trivial when the context already held a name, prefix or "
@@ -51,7 +51,7 @@ ASSUMPTIONS = [
     "every converter exits with status 0; converter completion order is enumerated through poll() answers",
     "file ages are sentinel mtimes; only the age order among the files of one plot (same path stem) is part "
     "of a state (lena compares only the tex and pdf of one plot)",
-    "data in {A,B} per plot (1-dim histograms), one template file with content in {T1,T2} shared by all plots, "
+    "data in {A,B} per plot (1-dim histograms), one template file with content in {T1, T1 plus a final newline} shared by all plots, "
     "pipeline settings fixed along a history",
     "content freshness is judged, not re-conversion as such: a derived artefact must equal what the stub "
     "produces from the files on disk whenever one of its sources was written in this run or it was missing",
@@ -216,7 +216,7 @@ def build(kind, p, cfg, taps):
 def values(p, data):
     out = []
     for i in range(p):
-        ctx = {"name": "p%d" % i}
+        ctx = {"name": M.NAMES[i]}
         if M.DIRS[i]:
             ctx["dir"] = M.DIRS[i]
         out.append((lena.structures.histogram(list(M.EDGES), list(M.DATA[data[i]])), ctx))
